@@ -22,7 +22,7 @@ RULE_TEXT = ('runs = deterministic sweep over every (phase step x position x fau
              'Non-trivial = a sandbox was created (execution got past validation) or a validation fault fired; '
              'distinct = (keep, status, shape, fired primary (phase, step, position, kind), fired cleanup fault, '
              'set of disturbance kinds executed).')
-REACH_PROBES = ['action_with_output_transformation', 'case_elsewhere_than_start_directory', 'read_through_preprocessor', 'keep', 'no_keep', 'sandbox_created', 'no_sandbox', 'ended_by_fault_with_sandbox', 'ended_pass',
+REACH_PROBES = ['mode_act', 'action_with_output_transformation', 'case_elsewhere_than_start_directory', 'read_through_preprocessor', 'keep', 'no_keep', 'sandbox_created', 'no_sandbox', 'ended_by_fault_with_sandbox', 'ended_pass',
                 'cd_executed', 'env_executed', 'tmp_file_by_case', 'child_wrote_file', 'chmod_readonly',
                 'child_left_symlink', 'child_left_odd_entries', 'child_removed_cwd', 'cwd_deleted_when_execution_ends', 'result_observed_after_act', 'result_observed_before_act', 'double_fault', 'keep_after_failure',
                 'cwd_in_tmp_at_end']
@@ -213,6 +213,9 @@ def make_plan(i, master, tier):
     plan['launch'] = {'elsewhere': lg.random() < 0.4, 'pp': lg.random() < 0.35}
     if i >= len(specs) and lg.random() < 0.4:
         plan['case']['layout'] = casegen.random_layout(lg)
+    # --act (without --keep): the sandbox is removed all the same
+    if not keep and lg.random() < (0.1 if i < len(specs) else 0.2):
+        plan['act_mode'] = True
     return plan
 
 
@@ -236,7 +239,8 @@ def execute(plan, scratch):
     sim = kernel.Sim(plan, w)
     home_before = w.snapshot(('home',))
     with patches.installed(sim):
-        argv = (['--keep'] if plan['keep'] else []) + (['--preprocessor', 'pp'] if launch.get('pp') else []) + [case_rel]
+        argv = (['--keep'] if plan['keep'] else []) + (['--act'] if plan.get('act_mode') else []) + \
+            (['--preprocessor', 'pp'] if launch.get('pp') else []) + [case_rel]
         res = host.run_cli(sim, argv, cwd=start)
         leftover = w.tmp_entries()
         final = None
@@ -298,7 +302,7 @@ def _model(plan, hist):
     primary = next((f for f in fired if not c01._is_cleanup_main(plan, f)), None)
     ploc = P.locate(case, primary) if primary else None
     failing_cleanup = {g['id'] for g in c01._armed(plan) if c01._is_cleanup_main(plan, g)}
-    items = P.executed_items(case, status, False, ploc, failing_cleanup)
+    items = P.executed_items(case, status, bool(plan.get('act_mode')), ploc, failing_cleanup)
     st = {'cwd': 'act', 'act': set(), 'tmp': set(), 'result': False, 'nonact_env': {}, 'act_env': {}, 'kinds': set(),
           'sub': {}}
     expect = {}
@@ -319,6 +323,8 @@ def _model(plan, hist):
             # result/ is populated by the act execute step when the ATC has run
             # (after a *failed* act execute the statement does not say what result/ holds: not judged)
             st['result'] = True if (not stub_fault and not spawn_err) else None
+            if plan.get('act_mode'):
+                st['result'] = None  # --act: the action's output goes to Exactly's own stdout / stderr; result/ is not judged
             continue
         if 'id' in item:
             expect[item['id']] = snap()
@@ -362,6 +368,8 @@ def _model(plan, hist):
 def _probes(plan, hist):
     pr = hist['probes']
     pr['keep' if plan['keep'] else 'no_keep'] = 1
+    if plan.get('act_mode'):
+        pr['mode_act'] = 1
     if len((plan['case'].get('act') or {}).get('lines', [])) > 1 and hist['n_sandboxes']:
         pr['action_with_output_transformation'] = 1
     if (plan.get('launch') or {}).get('elsewhere'):
